@@ -12,7 +12,7 @@ import numpy as np
 from scipy.ndimage import grey_closing, grey_dilation, grey_erosion, grey_opening, uniform_filter1d
 
 from ._algorithm_setup import _Algorithm, _class_wrapper
-from ._validation import _check_lam
+from ._validation import _check_half_window, _check_lam
 from .utils import _mollifier_kernel, _sort_array, pad_edges, padded_convolve, relative_difference
 
 
@@ -666,9 +666,10 @@ class _Morphological(_Algorithm):
         Raman Spectroscopy. 2017, 48(6), 878-883.
 
         """
-        if half_window is not None and half_window < 1:
-            raise ValueError('half-window must be greater than 0')
-        elif not 0 <= p <= 1:
+        if half_window is not None:
+            # validate here since the half window is otherwise only checked if weights is None
+            half_window = _check_half_window(half_window)
+        if not 0 <= p <= 1:
             raise ValueError('p must be between 0 and 1')
 
         y, weight_array, pspline = self._setup_spline(
